@@ -12,7 +12,7 @@ build_demo || { echo "demo does not build on clean tree"; tail -5 "$W/demo_build
 git -C "$W" apply "$D/patch.diff" || { echo "patch does not apply"; exit 2; }
 build_demo || { echo "demo does not build with the change"; git -C "$W" checkout -q -- .; exit 2; }
 ( cd "$W" && timeout 600 ./demo_bin > demo_mut.out 2>&1 ); rc_mut=$?
-suite=$(/tmp/wt/RUN_TESTS.sh "$W" | tail -1)
+suite=$("$(dirname "$0")/run_repo_tests.sh" "$W" | tail -1)
 git -C "$W" checkout -q -- .
 rm -rf "$W/_build" "$W/demo_bin" "$W"/_build*.log "$W/demo_build.log"
 echo "demo_clean_rc=$rc_clean demo_mutant_rc=$rc_mut suite='$suite'"
